@@ -181,8 +181,13 @@ def cache_stage(d, run, what, mcs, profiles, cmp, invs, mc_props=None, nontrivia
     if _thorough(run):
         mcs = [m + "_full" if os.path.exists(os.path.join(d.SPEC, "MC_Cache_%s_full.cfg" % m)) else m for m in mcs]
     for name in mcs:
-        r = d.tlc_mc("MC_Cache.tla", "MC_Cache_%s.cfg" % name, wd, workers=12, timeout=3000, heap="12g")
+        r = d.tlc_mc("MC_Cache.tla", "MC_Cache_%s.cfg" % name, wd, workers=12, timeout=5400, heap="12g", coverage=_thorough(run))
         run.add_mc(r, MC_NAMES.get(name, name))
+        if r["cov"]:
+            # vacuity: which actions of Cache.tla this configuration never took (TLC -coverage, per named action of MC_Cache)
+            never = sorted(a[2:] for a, n in r["cov"].items() if a.startswith("MC") and a != "MCInit" and n == 0)
+            run.notes.setdefault("actions_never_taken", {})[name] = never
+            run.notes.setdefault("actions_taken", {})[name] = len([a for a, n in r["cov"].items() if a.startswith("MC") and a != "MCInit" and n > 0])
         bad = [v for v in r["violated"]]
         if bad:
             mine = [v for v in bad if v in invs or v.startswith("<")]
